@@ -91,5 +91,9 @@ Fair == \A c, d \in CombSet : count[c] - count[d] \in {-1, 0, 1}
 
 \* canonical labelling of the equality partition of a column (what the driver compares)
 FirstIndex(col, r) == Min({q \in Rows : col[q] = col[r]})
-Emit == Built => PrintT(<<"CASE", frame, batch, sel, [k \in DOMAIN sel |-> [r \in Rows |-> FirstIndex(newcols[k], r)]]>>)
+\* all candidates with the partition their interaction feature must induce (the harness accepts any
+\* least-evaluated-first selection of them; `sel` is the model's own tie-breaking)
+TupleCol(comb) == [r \in Rows |-> TupleKey(comb, r)]
+Emit == Built => PrintT(<<"CASE", frame, batch, sel, [k \in DOMAIN sel |-> [r \in Rows |-> FirstIndex(newcols[k], r)]],
+                          Candidates, [k \in 1..NCand |-> [r \in Rows |-> FirstIndex(TupleCol(Candidates[k]), r)]]>>)
 =============================================================================
